@@ -435,8 +435,10 @@ def r08_9(ctx) -> None:
 
 
 def run(ctx) -> None:
+    from .c06 import r06_4 as _r06_4
+    ctx.guard_as("R08.16", _r06_4)  # dir / key-wrap keys have exactly the size of the algorithm (a longer key is not cut down: a strict peer refuses it)
     from .common import forwarding_discipline
-    ctx.guard(forwarding_discipline, "R08.12", ['recipient', 'enc', 'tag', 'cek', 'aad', 'iv', 'ek'], 51, "jwe")  # arguments are handed on under their own name (generic routing rule, rules/common.py)
+    ctx.guard(forwarding_discipline, "R08.12", ['recipient', 'enc', 'tag', 'cek', 'aad', 'iv', 'ek', 'value'], 51, "jwe")  # arguments are handed on under their own name (generic routing rule, rules/common.py)
     ctx.guard(r08_9)
     from .c04 import r04_4
     ctx.guard_as("R08.10", r04_4)
